@@ -42,6 +42,11 @@ P = {
   text="Lean theorems (Props/C09.lean): validate d = ok iff WellFormed d for OCI and blob documents (WellFormed is the declarative rule list, independent of the code's order of checks), every accepted non-skip statement enforces integrity, scopes_unique_of_valid; the three regexes are syntax trees with a derivative matcher whose rendering is proved equal to the regex text extracted from the source. Correspondence: grammar-valid documents + one mutation operator per rule applied singly and in pairs + random assembly, through the struct API, a JSON round trip and NewVerifierWithOptions; regex recognisers against Go's regexp.",
   note="go-ldap ParseDN is a parameter (its result travels with each identity); the derivative matcher is validated against Go's regexp, not proved equivalent to it. Three readings where the code is stricter than the statement's list are recorded in corpus/C09/README.md.",
   tech="Lean 4 proof (validate iff WellFormed) + regenerated facts (tables, regex texts) + correspondence"),
+ "C12": dict(
+  text="Lean theorems (Props/C12.lean): a Go nil dereference is an explicit `panicked` outcome of the model and every nil guard is a Boolean extracted from the source; with the extracted guards no entry point (verifier.Verify, VerifyBlob, SkipVerify, notation.Verify, notation.VerifyBlob, UserMetadata, nil arguments) panics for ANY configuration (OCI-only, blob-only, both, skip / no-match statements, nil plugin manager) and signature kind; each guard is necessary (a witness configuration panics without it); (outcome, error) consistency at the Verifier level. PARTIAL: that third-party decoders never panic or over-allocate on arbitrary bytes is only SAMPLED by the malformed-input stream (mutated JWS/COSE envelopes, random bytes, policy / config / signing-key JSON, CRL cache entries, trust store files) under recover with a heap watch - a fuzz-style validation, labelled as such, never counted as an obligation.",
+  note="Partial: arbitrary-bytes robustness of encoding/json, asn1, CBOR, go-cose, x509 cannot be exhibited by a model. The consistency sentence is applied at the Verifier interface (verifier.Verify / VerifyBlob); notation.Verify folds failing outcomes into its error by design. Plugin stdout/stderr and hostile OCI layouts are exercised by C17 / C19.",
+  tech="Lean 4 proof (Except-Panic totality of the guard logic over extracted guard facts) + configuration-matrix correspondence + sampled malformed-input stream"),
+
  "C13": dict(
   text="Lean theorems (Props/C13.lean): load_ok_iff (success iff known type, plain file name, real directory, every entry a regular file with >=1 parseable certificate, all CA-or-self-signed, tsa: self-signed roots, total non-empty), load_exact (concatenation in directory order), no_partial, file-name recogniser iff, store path exactness, creation-order irrelevance. Correspondence: materialised directory trees (PEM/DER/multi-cert/garbage/empty/sub-directory/symlink/symlinked store) through the real X509TrustStore.GetCertificates, name checks against file.IsValidFileName.",
   note="Certificate parsing and signature checks are abstracted to per-certificate flags measured by the harness with crypto/x509; fifos/devices/unreadable files are outside the quantifier.",
